@@ -18,21 +18,43 @@ RULE = ("base well-formed sequences x {identity, copy, via-relative, shuffled in
         "perturbed attribute (or not at all for the equal families).")
 PLAN = {"quick": {"cases": 2500, "jobs": 4, "timeout": 600},
         "thorough": {"cases": 2000000, "jobs": 16, "timeout": 3000, "budget_s": 360}}
-FLOORS = {"quick": {"equals.verdict.armed": 60000, "c17.expected_unequal_calls": 10000, "c17.expected_equal_calls": 10000, "c17.note_less_pair": 200},
+FLOORS = {"quick": {"equals.verdict.armed": 60000, "c17.expected_unequal_calls": 10000, "c17.expected_equal_calls": 10000, "c17.note_less_pair": 200, "c17.restruck_pairs": 80},
           "thorough": {"equals.verdict.armed": 1500000}}
 PERT = ["none", "pitch", "onset_keep_order", "onset_change_order", "duration", "velocity", "channel", "ts_value", "ts_tick",
         "ks_value", "ks_tick", "add_note", "channel_move", "channel_swap", "ts_proportional", "ts_denominator"]
 FLAGS = list(itertools.product([False, True], repeat=4))
 
 
+def make_restrike_case(rng, i):
+    """ill-formed but legal operands: a key struck again while its earlier stroke still sounds.  The contract's oracle is not
+    armed for them (what the "notes" of such a sequence are is the library's business); the driver only demands what every
+    reading agrees on: a copy is equal, and moving the note-off that ends the re-struck sound changes WHEN the key sounds, so the
+    operands differ musically and must compare unequal under every flag combination."""
+    ch = rng.choice([0, 1, 5])
+    p = rng.choice([60, 64])
+    a = rng.randrange(0, 30)
+    b = a + rng.randint(1, 30)            # second stroke while the first is open
+    c = b + rng.randint(1, 30)            # the only note-off of the key
+    other = [[ch, 67, rng.randrange(0, 60), rng.randint(2, 20), 90]]
+    ev = [["on", a, ch, p, 70], ["on", b, ch, p, 80], ["off", c, ch, p]]
+    delta = rng.choice([1, 6, 12, -1]) if c - 1 > b else rng.choice([1, 6, 12])
+    return {"restrike": {"events": ev, "other": other, "moved_off": c + delta}, "route": rng.choice(["build", "shuffled"]),
+            "shuffle_seed": rng.randrange(10 ** 6), "pert": "restruck_note_off_moved"}
+
+
 def make_case(rng, i, tier):
+    if i % 23 == 11:
+        return make_restrike_case(rng, i)
     pert = PERT[i % len(PERT)]
-    single = rng.random() < 0.7 and pert not in ("channel_move", "channel_swap")
+    # signature perturbations mostly on multi-channel operands: which channel a signature message sits on, and where it sits
+    # among the notes, must not influence how the notes of the channels are interleaved and compared
+    p_single = 0.3 if pert in ("ts_tick", "ks_tick", "ts_value", "ks_value", "ts_proportional", "ts_denominator") else 0.7
+    single = rng.random() < p_single and pert not in ("channel_move", "channel_swap")
     chans = (rng.choice([0, 2]),) if single else rng.choice([(0, 1), (0, 1, 2)])
     notes = gen.wf_notes(rng, rng.randint(1, 7), chans=chans, pitches=(60, 62, 64, 65), tmax=90, lmin=2, lmax=30)
     if not notes:
         notes = [[chans[0], 60, 0, 10, 5]]
-    if not single and len(notes) >= 2 and rng.random() < 0.6:
+    if not single and len(notes) >= 2 and rng.random() < 0.85:
         # exact onset ties between channels (the interleaving's tie-break then depends on the channel order)
         a = notes[0]
         for b in notes[1:]:
@@ -53,6 +75,20 @@ def make_case(rng, i, tier):
         extra.append(["ks", rng.choice([0, 0, 48]), rng.choice(gen.KEYS)])
     if rng.random() < 0.3:
         extra += gen.rand_extras(rng, 1, 60, kinds=("cc", "pc"), chans=chans)
+    if not single and pert in ("ts_tick", "ks_tick") and notes and rng.random() < 0.6:
+        # the signature message (channel 0) leads one operand and sits behind the first notes of ANOTHER channel in the other:
+        # the order in which the channels first appear differs between the operands, their notes do not
+        kind = pert[:2]
+        if not any(e[0] == kind for e in extra):
+            extra.append(["ts", 0, 3, 4] if kind == "ts" else ["ks", 0, "G"])
+        for e in extra:
+            if e[0] == kind:
+                e[1] = 0
+        first = min(notes, key=lambda n: (n[2], n[0]))
+        if first[0] == 0:
+            other_ch = next((c for c in chans if c != 0), 1)
+            for n in notes:
+                n[0] = other_ch if n[0] == 0 else (0 if n[0] == other_ch else n[0])
     base = {"notes": notes, "extra": extra, "start": rng.choice(["abs", "rel", "both"])}
     if single:
         base["relabel"] = chans[0]  # signatures are built on channel 0: make the whole sequence single-channel
@@ -121,11 +157,11 @@ def make_case(rng, i, tier):
             elif pert == "ts_denominator":
                 e[3] = {2: 4, 4: 8, 8: 4, 16: 8}[e[3]]
             elif pert == "ts_tick":
-                e[1] += 12
+                e[1] += rng.choice([12, 12, 40, 95])
             elif pert == "ks_value":
                 e[2] = gen.KEYS[(gen.KEYS.index(e[2]) + 1) % len(gen.KEYS)]
             else:
-                e[1] += 12
+                e[1] += rng.choice([12, 12, 40, 95])
     # keep the perturbed sequence well-formed (drop the case's perturbation if it created an overlap)
     busy = {}
     ok = True
@@ -174,8 +210,50 @@ def _build(spec, route, shuffle_seed):
     return s
 
 
+def _build_restrike(rs, off_tick, route, shuffle_seed):
+    import random
+    from scoda.sequences.sequence import Sequence
+    msgs = []
+    for e in rs["events"]:
+        if e[0] == "on":
+            msgs.append(gen.make_message("on", (e[2], e[3], e[4]), time=e[1]))
+        else:
+            msgs.append(gen.make_message("off", (e[2], e[3]), time=off_tick))
+    for (c, p, on, ln, v) in rs["other"]:
+        msgs.append(gen.make_message("on", (c, p, v), time=on))
+        msgs.append(gen.make_message("off", (c, p), time=on + ln))
+    msgs.sort(key=lambda m: m.time)
+    if route == "shuffled":
+        random.Random(shuffle_seed).shuffle(msgs)
+    s = Sequence()
+    for m in msgs:
+        s.add_absolute_message(m)
+    return s
+
+
+def run_restrike(case):
+    from vmon.monitors import LOG
+    rs = case["restrike"]
+    base_off = [e for e in rs["events"] if e[0] == "off"][0][1]
+    a = _build_restrike(rs, base_off, "build", 0)
+    a2 = _build_restrike(rs, base_off, case["route"], case["shuffle_seed"])
+    b = _build_restrike(rs, rs["moved_off"], case["route"], case["shuffle_seed"])
+    fails = []
+    LOG.n("c17.restruck_pairs")
+    for fl in FLAGS:
+        if not a.equals(a2, *fl) or not a2.equals(a, *fl) or not a.equals(a.copy(), *fl):
+            fails.append(fail("restruck_same_events_unequal", {"flags": fl}))
+        if a.equals(b, *fl) or b.equals(a, *fl):
+            fails.append(fail("restruck_note_off_moved_compares_equal", {"flags": fl, "off": (base_off, rs["moved_off"]), "events": rs["events"]}))
+    if (a == b) or not (a == a2):
+        fails.append(fail("restruck_eq_dunder", None))
+    return {"nontrivial": True, "fails": fails, "shape": ("restrike", case["route"]), "observed": {"off": (base_off, rs["moved_off"])}}
+
+
 def run(case, ctx):
     from vmon.monitors import LOG
+    if case.get("restrike"):
+        return run_restrike(case)
     a = _build(case["a"], "build", 0)
     b = _build(case["b"], case["route"], case["shuffle_seed"])
     fails = []
